@@ -274,6 +274,115 @@ def outcome_of(fn, src):
         return ('raises', type(e).__name__)
 
 
+def bounded_outcome(fn, src, seconds):
+    import threading
+    box = {}
+
+    def work():
+        box['v'] = outcome_of(fn, src)
+    th = threading.Thread(target=work, daemon=True)
+    th.start()
+    th.join(seconds)
+    return (not th.is_alive()), box.get('v')
+
+
+class _Unseekable(io.RawIOBase):
+    """a binary stream like a socket or a pipe: readable, neither seekable nor tell-able"""
+
+    def __init__(self, data):
+        self._b = io.BytesIO(data)
+
+    def readable(self):
+        return True
+
+    def seekable(self):
+        return False
+
+    def readinto(self, buf):
+        chunk = self._b.read(min(len(buf), 7))
+        buf[:len(chunk)] = chunk
+        return len(chunk)
+
+
+def variant_sources(w, text, ctype):
+    """(name, make) pairs; make() -> (source, closer). Every source delivers exactly the content `text`."""
+    import threading
+    data = text.encode('utf-8')
+    junk_b = b'{"this is": "what the caller read before"}\n' * 3
+    junk_t = junk_b.decode()
+
+    def positioned_bytesio():
+        o = io.BytesIO(junk_b + data)
+        o.read(len(junk_b))
+        return o, o.close
+
+    def positioned_stringio():
+        o = io.StringIO(junk_t + text, newline='')
+        o.read(len(junk_t))
+        return o, o.close
+
+    def positioned_binary_file():
+        pth = os.path.join(w.sub, 'prefixed.' + ctype)
+        with open(pth, 'wb') as fh:
+            fh.write(junk_b + data)
+        o = open(pth, 'rb')
+        o.read(len(junk_b))
+        return o, o.close
+
+    def positioned_text_file():
+        pth = os.path.join(w.sub, 'prefixed-t.' + ctype)
+        with open(pth, 'wb') as fh:
+            fh.write(junk_b + data)
+        o = open(pth, 'r', encoding='utf-8', newline='')
+        for _ in range(3):
+            o.readline()
+        return o, o.close
+
+    def unseekable():
+        o = io.BufferedReader(_Unseekable(data))
+        return o, o.close
+
+    def fifo(suffix):
+        def make():
+            pth = os.path.join(w.sub, 'fifo.' + ctype + suffix)
+            if os.path.exists(pth):
+                os.remove(pth)
+            os.mkfifo(pth)
+            payload = data if not suffix else gzip.compress(data)
+
+            def feed():
+                try:
+                    fd = os.open(pth, os.O_WRONLY)       # blocks until the reader opens the FIFO
+                    with os.fdopen(fd, 'wb') as fh:
+                        fh.write(payload)
+                except OSError:
+                    pass
+            th = threading.Thread(target=feed, daemon=True)
+            th.start()
+
+            def closer():
+                # if nobody opened the FIFO for reading the feeder is still blocked: open it once ourselves to release it
+                if th.is_alive():
+                    try:
+                        fd = os.open(pth, os.O_RDONLY | os.O_NONBLOCK)
+                        th.join(2)
+                        os.close(fd)
+                    except OSError:
+                        pass
+                try:
+                    os.remove(pth)
+                except OSError:
+                    pass
+            return pth, closer
+        return make
+    out = [('bytesIO-after-a-prefix-was-read', positioned_bytesio), ('stringIO-after-a-prefix-was-read', positioned_stringio),
+           ('binaryFile-after-a-prefix-was-read', positioned_binary_file), ('textFile-after-lines-were-read', positioned_text_file),
+           ('unseekable-binary-stream', unseekable)]
+    if hasattr(os, 'mkfifo'):
+        out += [('path-to-a-FIFO', fifo('')), ('gz-path-to-a-FIFO', fifo('.gz'))]
+    return out
+
+
 def reader_product(ctx, w):
     rd = readers()
     cont = contents()
@@ -297,6 +406,26 @@ def reader_product(ctx, w):
                                       {'case': {'kind': 'reader', 'function': fname, 'source': kind, 'content': tag, 'gz_layout': layout},
                                        'impl': {'got': str(got)[:600], 'reference(plain path)': str(ref)[:600]},
                                        'theorem': 'Hpv.Props.C16.same_result'})
+            # the same content through sources that are NOT a regular file read from its start: a stream the caller has already read a
+            # prefix of (what is left IS the content), a path to a FIFO (size 0, not seekable), an unseekable binary stream
+            if ref is not None and ref[0] == 'ok' and tag in ('ascii', 'non-ascii', 'a', 'b'):
+                w.put(text, '.' + ctype, 'single')
+                for vname, make in variant_sources(w, text, ctype):
+                    ctx.case(['read', fname, vname, tag], True, 'readers x positioned / unseekable / FIFO sources',
+                             sample={'function': fname, 'source': vname, 'content': tag})
+                    try:
+                        src, closer = make()
+                    except Exception as e:  # noqa
+                        ctx.count(f'variant-source-unavailable.{vname}')
+                        continue
+                    done, got = bounded_outcome(fn, src, 20)
+                    closer()
+                    if not done:
+                        got = ('raises', 'does not return within 20 s')
+                    if got != ref:
+                        ctx.violation(f'{fname}:{vname}', {'case': {'kind': 'reader', 'function': fname, 'source': vname, 'content': tag, 'gz_layout': 'single'},
+                                                           'impl': {'got': str(got)[:600], 'reference(plain path)': str(ref)[:600]},
+                                                           'theorem': 'Hpv.Props.C16.same_result'})
             # a text file the caller opened the DEFAULT way (universal newlines: CRLF / CR arrive as LF) is the same document; the
             # result must not depend on how its lines end. (Not for the content with a carriage return INSIDE a quoted field: there the
             # caller's stream delivers other characters.)
